@@ -72,7 +72,7 @@ def gen_case(rng, tier):
         nm = rng.choice(pool)
         numeric = nm in t["cols"] and t["nrow"] and (isinstance(t["cols"][nm][0], (int, float)) or nm in t.get("textual", {}))
         if numeric:
-            cast[nm] = rng.choice(["float", "str", "str"]) if reader in ("df_csv", "df_json", "df_parquet", "lod_csv", "lod_json") else "float"
+            cast[nm] = rng.choice(["float", "str", "str", "int"]) if reader in ("df_csv", "df_json", "df_parquet", "lod_csv", "lod_json") else "float"
     case = {"op": "read", "reader": reader, "table": t, "restrict": restrict, "cast": cast,
             "ragged": rng.random() < 0.4, "encoding": rng.choice(["utf-8", "utf-8", "latin-1", "utf-16"]),
             "sep": rng.choice([",", ",", ";", "\t"]), "header": rng.random() < 0.85}
@@ -187,7 +187,7 @@ def canon(obj):
     return out
 
 
-PYTYPE = {"float": float, "str": str}
+PYTYPE = {"float": float, "str": str, "int": int}
 
 
 def arguments(case):
@@ -299,7 +299,7 @@ def impl(case):
                     if isinstance(obj, di.DataFrame):
                         for k, ty in saved[1].items():
                             if k in obj:
-                                obj[k] = obj[k].as_float() if ty is float else obj[k].as_string()
+                                obj[k] = obj[k].as_float() if ty is float else obj[k].as_integer() if ty is int else obj[k].as_string()
                     else:
                         for item in obj:
                             for k, ty in saved[1].items():
@@ -407,7 +407,12 @@ def judge(ctx, case, obs, mouts):
     # (None, '8'), read-everything-then-cast goes through the float column that holds the missing value ('nan', '8.0')
     strmiss = any(v == "str" and any(x is None or x == "nan" for x in allr.get(ren.get(k, k), [])) for k, v in case["cast"].items())
     suffix = ":str-cast-missing" if strmiss else ""
-    if "__err__" in cl:
+    # an int mapping on a column with missing cells: there is no integer to cast a missing cell to (NumPy: undefined, a
+    # RuntimeWarning and an arbitrary number), so "read everything and cast" says nothing to compare with
+    intmiss = any(v == "int" and any(x is None or x == "nan" for x in allr.get(ren.get(k, k), [])) for k, v in case["cast"].items())
+    if intmiss:
+        ctx.count("int-cast-missing:not-compared")
+    if "__err__" in cl or intmiss:
         pass
     elif reader != "df_npz":
         exp = select_cast(case, obs.get("all_cast", allr), restrict, set())
@@ -416,7 +421,7 @@ def judge(ctx, case, obs, mouts):
     if obs.get("args_mutated"):
         ctx.violation("oracle", f"argument-mutated:{reader}", "a reader changed the column list / dtype mapping object it was given", case, obs)
     sh = obs.get("all_shared")
-    if sh is not None and "__err__" not in sh and "all_cast" in obs and reader != "df_npz":
+    if sh is not None and "__err__" not in sh and "all_cast" in obs and reader != "df_npz" and not intmiss:
         # the unrestricted read with the caller's own (reused) mapping object, after the restricted reads
         if not same_map(sh, select_cast(case, obs["all_cast"], [], set())):
             ctx.violation("oracle", f"reused-mapping-differs:{reader}{suffix}", f"reading everything with the dtype mapping used before gives {str(sh)[:200]}, read-all-then-cast gives {str(obs['all_cast'])[:200]}", case, obs)
